@@ -59,6 +59,9 @@ InScalar(d, v) == IF d.t = "cont" THEN InCont(d, v) ELSE InDisc(d, v)
 \* correct, as a RELATION: into the domain; a member is left unchanged
 CorrectRelScalar(d, v, out) == InScalar(d, out) /\ (InScalar(d, v) => out = v)
 CorrectRelPerm(n, v, out) == IsPermOf(n, out) /\ (IsPermOf(n, v) => out = v)
+\* the same for a candidate given in HALF units (code 3 = 1.5): fractional candidates are never members
+PermValue(v) == IF \A k \in DOMAIN v : v[k] % 2 = 0 THEN [k \in DOMAIN v |-> v[k] \div 2] ELSE <<>>
+CorrectRelPermH(n, v, out) == IsPermOf(n, out) /\ (IsPermOf(n, PermValue(v)) => out = PermValue(v))
 
 \* intended functional refinements
 Clip(v, lo, hi) == IF v < lo THEN lo ELSE IF v > hi THEN hi ELSE v
